@@ -156,6 +156,7 @@ fn wav(first_only: bool) {
 #[kani::stub(alloc::fmt::format, crate::verif::stub_format)]
 fn c16_wav_across() {
 	wav(false);
+	kani::cover!(true, "end of harness reached");
 }
 
 // @harness props=C16x tier=quick timeout=1200
@@ -165,4 +166,5 @@ fn c16_wav_across() {
 #[kani::stub(alloc::fmt::format, crate::verif::stub_format)]
 fn c16_wav_first_only() {
 	wav(true);
+	kani::cover!(true, "end of harness reached");
 }
